@@ -128,18 +128,31 @@ func worker(c Composition) workerResult {
 		})
 		if kind == "at-rollback" {
 			err = nil // the rollback is the expected outcome
+			if xid != "" {
+				// the coordinator re-sends the branch rollback twice (it did not see the answers): the second and third delivery
+				// take the 'nothing to undo' and the 'already finished' paths of the undo manager
+				e.TC.DriveRollback(xid)
+				e.TC.DriveRollback(xid)
+			}
 		} else if err == nil && xid != "" {
 			e.TC.DriveCommit(xid) // phase-two traffic while the other transactions run
 		}
 		return err
 	}
+	dbg := func(f string, a ...interface{}) {
+		if os.Getenv("VERIF_C20_DEBUG") != "" {
+			fmt.Fprintf(os.Stderr, "C20DBG "+f+"\n", a...)
+		}
+	}
 	// warm-up: one transaction of each kind, so lazily started daemons exist before the baseline is taken
 	for i, k := range kinds {
+		dbg("warmup %s", k)
 		if err := one(k, i); err != nil {
 			res.Problems = append(res.Problems, fmt.Sprintf("warmup: %s: %v", k, err))
 		}
 	}
 	quiet.Settle(nil, 30)
+	dbg("warmup done, hung=%d", faketc.HungCount())
 	base := runtime.NumGoroutine()
 	openConns := func() int {
 		n := 0
@@ -151,7 +164,7 @@ func worker(c Composition) workerResult {
 		return n
 	}
 	baseConns := openConns()
-	hungBefore := faketc.Hung
+	hungBefore := faketc.HungCount()
 	waitFlush := func() {
 		// the asynchronous phase-two commits are flushed by the clean-up ticker, which the check ticks: wait until the undo logs are gone (bounded)
 		for i := 0; i < 100; i++ {
@@ -210,6 +223,7 @@ func worker(c Composition) workerResult {
 			}
 			res.Deadline = true
 		}
+		dbg("round %d done", round)
 		res.Txs += 3 * len(c.Kinds)
 		waitFlush() // one flush of the asynchronous commit worker per round
 		for i, err := range errs {
@@ -220,14 +234,17 @@ func worker(c Composition) workerResult {
 	}
 	waitFlush()
 	// accounting at quiescence
+	dbg("flushed, settling")
 	quiet.Settle(nil, 50)
 	time.Sleep(50 * time.Millisecond)
 	quiet.Settle(nil, 50)
+	dbg("settled")
 	if n := runtime.NumGoroutine(); n > base {
 		buf := make([]byte, 1<<17)
 		k := runtime.Stack(buf, true)
 		res.Problems = append(res.Problems, fmt.Sprintf("goroutines-lost: %d goroutines at quiescence, %d before the workload (%d transactions)\n%s", n, base, res.Txs, firstFrames(buf[:k])))
 	}
+	dbg("goroutines counted")
 	if s := e.AT.Stats(); s.InUse != 0 {
 		res.Problems = append(res.Problems, fmt.Sprintf("connections-lost: AT handle has %d connections in use at quiescence", s.InUse))
 	}
@@ -242,13 +259,14 @@ func worker(c Composition) workerResult {
 	if n := openConns(); n > baseConns+1 {
 		res.Problems = append(res.Problems, fmt.Sprintf("connections-lost: %d database connections are open at quiescence, %d before the workload (%d transactions)", n, baseConns, res.Txs))
 	}
+	dbg("pools counted")
 	if n := e.Srv.OpenTxCount(); n != 0 {
 		res.Problems = append(res.Problems, fmt.Sprintf("transactions-left-open: %d database transactions are still open", n))
 	}
 	if n := e.Srv.HeldLocks(); n != 0 {
 		res.Problems = append(res.Problems, fmt.Sprintf("locks-left: %d row locks are still held", n))
 	}
-	if faketc.Hung > hungBefore {
+	if faketc.HungCount() > hungBefore {
 		res.Problems = append(res.Problems, "handler-never-returned: a phase-two handler never returned")
 	}
 	return res
@@ -334,6 +352,9 @@ func Run(r *rep.Run) {
 		var c Composition
 		json.Unmarshal([]byte(w), &c)
 		res := worker(c)
+		if os.Getenv("VERIF_C20_DEBUG") != "" {
+			fmt.Fprintf(os.Stderr, "C20DBG worker returned %d problems\n", len(res.Problems))
+		}
 		b, _ := json.Marshal(res)
 		os.WriteFile(os.Getenv("VERIF_C20_OUT"), b, 0o644)
 		os.Exit(0)
